@@ -56,6 +56,18 @@ class _SI(SFTPServerInterface):
             return SFTPServer.convert_errno(e.errno)
     lstat = stat
 
+    def list_folder(self, path):
+        path = self._p(path)
+        try:
+            out = []
+            for fname in sorted(os.listdir(path)):
+                attr = SFTPAttributes.from_stat(os.stat(os.path.join(path, fname)))
+                attr.filename = fname
+                out.append(attr)
+            return out
+        except OSError as e:
+            return SFTPServer.convert_errno(e.errno)
+
     def remove(self, path):
         try:
             os.remove(self._p(path))
